@@ -2393,7 +2393,10 @@ bool NifFile::GetNodeTransformToGlobal(const std::string& nodeName, MatTransform
 
 		MatTransform xform = node->GetTransformToParent();
 		NiNode* parent = GetParentNode(node);
-		while (parent) {
+
+		// A node that is (indirectly) its own parent would keep this loop going forever
+		std::unordered_set<NiNode*> visited{node};
+		while (parent && visited.insert(parent).second) {
 			xform = parent->GetTransformToParent().ComposeTransforms(xform);
 			parent = GetParentNode(parent);
 		}
